@@ -18,14 +18,22 @@
     [GaussFacts Phi Phiinv] as a premise (they use only [gf_mono], [gf_range], [gf_tail8],
     [gf_mills], [gf_band]); Plackett-Luce and Bradley-Terry need nothing.
 
-    Non-vacuity: [GaussFacts] cannot be instantiated here (no formalised Gaussian integral is
-    installed), so theorems with that premise have no closed Example.  The PL/BT theorems have
+    Non-vacuity: the [GaussFacts] premise is instantiated: [GaussInst.PhiK] is the standard
+    normal distribution function constructed in GaussInst.v, [GaussInst.PhiinvK] its inverse,
+    and [GaussFull.GaussFacts_inst : GaussFacts GaussInst.PhiK GaussInst.PhiinvK] is proved
+    without hypothesis (calculus facts in GaussCalc.v, the value of the Gaussian integral in
+    GaussIntegral.v).  Every theorem with a [GaussFacts] premise (also in the conditional form
+    [k = TMF \/ k = TMP -> GaussFacts Phi Phiinv]) has an [_inst] corollary at the end of the
+    file, stated for [GaussInst.PhiK] / [GaussInst.PhiinvK] with that premise removed: nothing
+    about the normal distribution is assumed any more; the only remaining link is that
+    CPython's NormalDist computes this function.  The PL/BT theorems have
     obviously satisfiable hypotheses; Examples instantiating them on concrete games are given.
     Hypotheses of the form [compute ... = [x; y]] / [nth_error (compute ...) i = Some res] are
     always satisfiable ([compute] returns one team per team: [C05_two_team_games_ex]). *)
 From Coq Require Import List Arith ZArith Reals Lra Lia.
 From OSV Require Import Num Order Gauss Core RInst.
 From OSV.Lemmas Require C05L C05RateL.
+From OSV Require GaussInst GaussFull.
 Import ListNotations.
 Open Scope R_scope.
 
@@ -555,3 +563,227 @@ Proof.
   - intros [|[|[|x]]] [|[|[|y]]] u w Hxy Eu Ew; cbn in Eu, Ew; try lia; try (destruct x; discriminate); try (destruct y; discriminate);
       injection Eu as <-; injection Ew as <-; cbn; lia.
 Qed.
+
+(** ** The [GaussFacts] premise instantiated.
+
+    Each theorem above that takes [GaussFacts Phi Phiinv] as a premise is restated here for
+    the concrete standard normal distribution function [GaussInst.PhiK] and its inverse
+    [GaussInst.PhiinvK] (constructed in GaussInst.v), with no premise about the normal law:
+    [GaussFull.GaussFacts_inst : GaussFacts GaussInst.PhiK GaussInst.PhiinvK] is proved
+    outright (calculus facts in GaussCalc.v, the Gaussian integral in GaussIntegral.v). *)
+Theorem C05_first_alone_TMF_inst : forall (P : params R) (trs : list (trating R))
+    (i : nat) (ti : trating R) (res : list (rating R)),
+  (2 <= length trs)%nat -> 0 < p_beta P -> 0 < p_kappa P -> Forall (fun t => 0 < t_ss t) trs ->
+  nth_error trs i = Some ti ->
+  (forall q tq, q <> i -> nth_error trs q = Some tq -> (t_rank ti < t_rank tq)%nat) ->
+  nth_error (compute (H := RNum GaussInst.PhiK GaussInst.PhiinvK) TMF P trs) i = Some res ->
+  Forall2 (fun p p' => r_mu p <= r_mu p') (t_team ti) res.
+Proof. intros P trs i ti res; exact (C05_first_alone_TMF GaussInst.PhiK GaussInst.PhiinvK P trs i ti res GaussFull.GaussFacts_inst). Qed.
+Print Assumptions C05_first_alone_TMF_inst.
+
+Theorem C05_first_alone_TMP_inst : forall (P : params R) (trs : list (trating R))
+    (i : nat) (ti : trating R) (res : list (rating R)),
+  (2 <= length trs)%nat -> 0 < p_beta P -> 0 < p_kappa P -> Forall (fun t => 0 < t_ss t) trs ->
+  nth_error trs i = Some ti ->
+  (forall q tq, q <> i -> nth_error trs q = Some tq -> (t_rank ti < t_rank tq)%nat) ->
+  nth_error (compute (H := RNum GaussInst.PhiK GaussInst.PhiinvK) TMP P trs) i = Some res ->
+  Forall2 (fun p p' => r_mu p <= r_mu p') (t_team ti) res.
+Proof. intros P trs i ti res; exact (C05_first_alone_TMP GaussInst.PhiK GaussInst.PhiinvK P trs i ti res GaussFull.GaussFacts_inst). Qed.
+Print Assumptions C05_first_alone_TMP_inst.
+
+Theorem C05_last_alone_TMF_inst : forall (P : params R) (trs : list (trating R))
+    (i : nat) (ti : trating R) (res : list (rating R)),
+  (2 <= length trs)%nat -> 0 < p_beta P -> 0 < p_kappa P -> Forall (fun t => 0 < t_ss t) trs ->
+  nth_error trs i = Some ti ->
+  (forall q tq, q <> i -> nth_error trs q = Some tq -> (t_rank tq < t_rank ti)%nat) ->
+  nth_error (compute (H := RNum GaussInst.PhiK GaussInst.PhiinvK) TMF P trs) i = Some res ->
+  Forall2 (fun p p' => r_mu p' <= r_mu p) (t_team ti) res.
+Proof. intros P trs i ti res; exact (C05_last_alone_TMF GaussInst.PhiK GaussInst.PhiinvK P trs i ti res GaussFull.GaussFacts_inst). Qed.
+Print Assumptions C05_last_alone_TMF_inst.
+
+Theorem C05_last_alone_TMP_inst : forall (P : params R) (trs : list (trating R))
+    (i : nat) (ti : trating R) (res : list (rating R)),
+  (2 <= length trs)%nat -> 0 < p_beta P -> 0 < p_kappa P -> Forall (fun t => 0 < t_ss t) trs ->
+  nth_error trs i = Some ti ->
+  (forall q tq, q <> i -> nth_error trs q = Some tq -> (t_rank tq < t_rank ti)%nat) ->
+  nth_error (compute (H := RNum GaussInst.PhiK GaussInst.PhiinvK) TMP P trs) i = Some res ->
+  Forall2 (fun p p' => r_mu p' <= r_mu p) (t_team ti) res.
+Proof. intros P trs i ti res; exact (C05_last_alone_TMP GaussInst.PhiK GaussInst.PhiinvK P trs i ti res GaussFull.GaussFacts_inst). Qed.
+Print Assumptions C05_last_alone_TMP_inst.
+
+Theorem C05_two_team_order_inst : forall (k : kind) (P : params R) (ma sa : R) (ta : list (rating R)) (mb sb : R) (tb : list (rating R))
+    (rw rw' rd rl rl' : nat) (aw bl ad bd al bw : list (rating R)),
+  0 < p_beta P -> 0 < p_kappa P -> 0 < sa -> 0 < sb ->
+  (rw < rw')%nat -> (rl' < rl)%nat ->
+  compute (H := RNum GaussInst.PhiK GaussInst.PhiinvK) k P [mkT ma sa ta rw; mkT mb sb tb rw'] = [aw; bl] ->
+  compute (H := RNum GaussInst.PhiK GaussInst.PhiinvK) k P [mkT ma sa ta rd; mkT mb sb tb rd] = [ad; bd] ->
+  compute (H := RNum GaussInst.PhiK GaussInst.PhiinvK) k P [mkT ma sa ta rl; mkT mb sb tb rl'] = [al; bw] ->
+  (Forall2 (fun x y => r_mu x <= r_mu y) al ad /\ Forall2 (fun x y => r_mu x <= r_mu y) ad aw
+   /\ Forall2 (fun p0 x => r_mu x <= r_mu p0) ta al /\ Forall2 (fun p0 x => r_mu p0 <= r_mu x) ta aw)
+  /\ (Forall2 (fun x y => r_mu x <= r_mu y) bl bd /\ Forall2 (fun x y => r_mu x <= r_mu y) bd bw
+   /\ Forall2 (fun p0 x => r_mu x <= r_mu p0) tb bl /\ Forall2 (fun p0 x => r_mu p0 <= r_mu x) tb bw).
+Proof. intros k P ma sa ta mb sb tb rw rw' rd rl rl' aw bl ad bd al bw; exact (C05_two_team_order GaussInst.PhiK GaussInst.PhiinvK k P ma sa ta mb sb tb rw rw' rd rl rl' aw bl ad bd al bw GaussFull.GaussFacts_inst). Qed.
+Print Assumptions C05_two_team_order_inst.
+
+Theorem C05_draw_direction_TMF_inst : forall (P : params R) (ma sa : R) (ta : list (rating R)) (mb sb : R) (tb : list (rating R))
+    (r : nat) (ad bd : list (rating R)),
+  0 < p_beta P -> 0 < p_kappa P -> 0 < sa -> 0 < sb ->
+  mb <= ma ->
+  compute (H := RNum GaussInst.PhiK GaussInst.PhiinvK) TMF P [mkT ma sa ta r; mkT mb sb tb r] = [ad; bd] ->
+  let c := sqrt (sa + sb + 2 * (p_beta P * p_beta P)) in
+  Forall2 (fun p0 x => r_mu x <= r_mu p0 + r_sigma p0 * r_sigma p0 / sa * (sa / c * (p_kappa P / c))) ta ad
+  /\ Forall2 (fun p0 x => r_mu p0 + r_sigma p0 * r_sigma p0 / sb * - (sb / c * (p_kappa P / c)) <= r_mu x) tb bd.
+Proof. intros P ma sa ta mb sb tb r ad bd; exact (C05_draw_direction_TMF GaussInst.PhiK GaussInst.PhiinvK P ma sa ta mb sb tb r ad bd GaussFull.GaussFacts_inst). Qed.
+Print Assumptions C05_draw_direction_TMF_inst.
+
+Theorem C05_draw_direction_TMP_inst : forall (P : params R) (ma sa : R) (ta : list (rating R)) (mb sb : R) (tb : list (rating R))
+    (r : nat) (ad bd : list (rating R)),
+  0 < p_beta P -> 0 < p_kappa P -> 0 < sa -> 0 < sb ->
+  mb <= ma ->
+  compute (H := RNum GaussInst.PhiK GaussInst.PhiinvK) TMP P [mkT ma sa ta r; mkT mb sb tb r] = [ad; bd] ->
+  let c := 2 * sqrt (sa + sb + 2 * (p_beta P * p_beta P)) in
+  Forall2 (fun p0 x => r_mu x <= r_mu p0 + r_sigma p0 * r_sigma p0 / sa * (sa / c * (p_kappa P / c))) ta ad
+  /\ Forall2 (fun p0 x => r_mu p0 + r_sigma p0 * r_sigma p0 / sb * - (sb / c * (p_kappa P / c)) <= r_mu x) tb bd.
+Proof. intros P ma sa ta mb sb tb r ad bd; exact (C05_draw_direction_TMP GaussInst.PhiK GaussInst.PhiinvK P ma sa ta mb sb tb r ad bd GaussFull.GaussFacts_inst). Qed.
+Print Assumptions C05_draw_direction_TMP_inst.
+
+Theorem C05_exchange_inst : forall (k : kind) (P : params R) (trs : list (trating R))
+    (i j : nat) (ti tj : trating R) (res res' : list (rating R)),
+  (k = PL \/ k = BTF \/ k = TMF) ->
+  (2 <= length trs)%nat -> 0 < p_beta P -> 0 < p_kappa P -> Forall (fun t => 0 < t_ss t) trs ->
+  NoDup (map t_rank trs) ->
+  nth_error trs i = Some ti -> nth_error trs j = Some tj -> (t_rank tj < t_rank ti)%nat ->
+  nth_error (compute (H := RNum GaussInst.PhiK GaussInst.PhiinvK) k P trs) i = Some res ->
+  nth_error (compute (H := RNum GaussInst.PhiK GaussInst.PhiinvK) k P
+     (map (fun t => mkT (t_mu t) (t_ss t) (t_team t) (if Nat.eqb (t_rank t) (t_rank ti) then t_rank tj else if Nat.eqb (t_rank t) (t_rank tj) then t_rank ti else t_rank t)) trs)) i = Some res' ->
+  Forall2 (fun p p' => r_mu p <= r_mu p') res res'.
+Proof. intros k P trs i j ti tj res res'; exact (C05_exchange GaussInst.PhiK GaussInst.PhiinvK k P trs i j ti tj res res' GaussFull.GaussFacts_inst). Qed.
+Print Assumptions C05_exchange_inst.
+
+Theorem C05_identical_ordered_inst : forall (k : kind) (P : params R) (trs : list (trating R))
+    (i j : nat) (ti tj : trating R) (resi resj : list (rating R)),
+  (k = PL \/ k = BTF \/ k = TMF) ->
+  (2 <= length trs)%nat -> 0 < p_beta P -> 0 < p_kappa P -> Forall (fun t => 0 < t_ss t) trs ->
+  NoDup (map t_rank trs) ->
+  nth_error trs i = Some ti -> nth_error trs j = Some tj ->
+  t_mu ti = t_mu tj -> t_ss ti = t_ss tj -> t_team ti = t_team tj -> (t_rank ti < t_rank tj)%nat ->
+  nth_error (compute (H := RNum GaussInst.PhiK GaussInst.PhiinvK) k P trs) i = Some resi ->
+  nth_error (compute (H := RNum GaussInst.PhiK GaussInst.PhiinvK) k P trs) j = Some resj ->
+  Forall2 (fun pj pi => r_mu pj <= r_mu pi) resj resi.
+Proof. intros k P trs i j ti tj resi resj; exact (C05_identical_ordered GaussInst.PhiK GaussInst.PhiinvK k P trs i j ti tj resi resj GaussFull.GaussFacts_inst). Qed.
+Print Assumptions C05_identical_ordered_inst.
+
+Theorem C05_identical_partial_inst : forall (k : kind) (P : params R) (trs : list (trating R))
+    (m s : R) (tm : list (rating R)) (i j : nat) (resi resj : list (rating R)),
+  (k = BTP \/ k = TMP) ->
+  (2 <= length trs)%nat -> 0 < p_beta P -> 0 < p_kappa P -> 0 < s ->
+  Forall (fun t => t_mu t = m /\ t_ss t = s /\ t_team t = tm) trs ->
+  (forall a b ta tb, (a < b)%nat -> nth_error trs a = Some ta -> nth_error trs b = Some tb ->
+     (t_rank ta < t_rank tb)%nat) ->
+  (i < j)%nat ->
+  nth_error (compute (H := RNum GaussInst.PhiK GaussInst.PhiinvK) k P trs) i = Some resi ->
+  nth_error (compute (H := RNum GaussInst.PhiK GaussInst.PhiinvK) k P trs) j = Some resj ->
+  Forall2 (fun pj pi => r_mu pj <= r_mu pi) resj resi.
+Proof. intros k P trs m s tm i j resi resj; exact (C05_identical_partial GaussInst.PhiK GaussInst.PhiinvK k P trs m s tm i j resi resj GaussFull.GaussFacts_inst). Qed.
+Print Assumptions C05_identical_partial_inst.
+
+Theorem C05_rate_first_alone_none_inst : forall (k : kind) (P : params R) (tau : R) (limit : bool)
+    (teams : list (list (rating R))) (t res : list (rating R)),
+  (2 <= length teams)%nat -> 0 < p_beta P -> 0 < p_kappa P ->
+  Forall (fun t => t <> [] /\ Forall (fun p => 0 < r_sigma p * r_sigma p + tau * tau) t) teams ->
+  nth_error teams 0 = Some t ->
+  nth_error (rate_core (H := RNum GaussInst.PhiK GaussInst.PhiinvK) k P tau limit teams None) 0 = Some res ->
+  Forall2 (fun p p' => r_mu p <= r_mu p') t res.
+Proof. intros k P tau limit teams t res; exact (C05_rate_first_alone_none GaussInst.PhiK GaussInst.PhiinvK k P tau limit teams t res (fun _ => GaussFull.GaussFacts_inst)). Qed.
+Print Assumptions C05_rate_first_alone_none_inst.
+
+Theorem C05_rate_last_alone_none_inst : forall (k : kind) (P : params R) (tau : R) (limit : bool)
+    (teams : list (list (rating R))) (t res : list (rating R)),
+  (2 <= length teams)%nat -> 0 < p_beta P -> 0 < p_kappa P ->
+  Forall (fun t => t <> [] /\ Forall (fun p => 0 < r_sigma p * r_sigma p + tau * tau) t) teams ->
+  nth_error teams (length teams - 1) = Some t ->
+  nth_error (rate_core (H := RNum GaussInst.PhiK GaussInst.PhiinvK) k P tau limit teams None) (length teams - 1) = Some res ->
+  Forall2 (fun p p' => r_mu p' <= r_mu p) t res.
+Proof. intros k P tau limit teams t res; exact (C05_rate_last_alone_none GaussInst.PhiK GaussInst.PhiinvK k P tau limit teams t res (fun _ => GaussFull.GaussFacts_inst)). Qed.
+Print Assumptions C05_rate_last_alone_none_inst.
+
+Theorem C05_rate_first_alone_keys_inst : forall (k : kind) (P : params R) (tau : R) (limit : bool)
+    (teams : list (list (rating R))) (ks : list key) (i : nat) (ki : key) (t res : list (rating R)),
+  (2 <= length teams)%nat -> 0 < p_beta P -> 0 < p_kappa P ->
+  Forall (fun t => t <> [] /\ Forall (fun p => 0 < r_sigma p * r_sigma p + tau * tau) t) teams ->
+  Forall (fun k : key => (0 <= snd k)%Z) ks -> length ks = length teams ->
+  nth_error ks i = Some ki -> nth_error teams i = Some t ->
+  (forall q kq, q <> i -> nth_error ks q = Some kq -> key_ltb ki kq = true) ->
+  nth_error (rate_core (H := RNum GaussInst.PhiK GaussInst.PhiinvK) k P tau limit teams (Some ks)) i = Some res ->
+  Forall2 (fun p p' => r_mu p <= r_mu p') t res.
+Proof. intros k P tau limit teams ks i ki t res; exact (C05_rate_first_alone_keys GaussInst.PhiK GaussInst.PhiinvK k P tau limit teams ks i ki t res (fun _ => GaussFull.GaussFacts_inst)). Qed.
+Print Assumptions C05_rate_first_alone_keys_inst.
+
+Theorem C05_rate_last_alone_keys_inst : forall (k : kind) (P : params R) (tau : R) (limit : bool)
+    (teams : list (list (rating R))) (ks : list key) (i : nat) (ki : key) (t res : list (rating R)),
+  (2 <= length teams)%nat -> 0 < p_beta P -> 0 < p_kappa P ->
+  Forall (fun t => t <> [] /\ Forall (fun p => 0 < r_sigma p * r_sigma p + tau * tau) t) teams ->
+  Forall (fun k : key => (0 <= snd k)%Z) ks -> length ks = length teams ->
+  nth_error ks i = Some ki -> nth_error teams i = Some t ->
+  (forall q kq, q <> i -> nth_error ks q = Some kq -> key_ltb kq ki = true) ->
+  nth_error (rate_core (H := RNum GaussInst.PhiK GaussInst.PhiinvK) k P tau limit teams (Some ks)) i = Some res ->
+  Forall2 (fun p p' => r_mu p' <= r_mu p) t res.
+Proof. intros k P tau limit teams ks i ki t res; exact (C05_rate_last_alone_keys GaussInst.PhiK GaussInst.PhiinvK k P tau limit teams ks i ki t res (fun _ => GaussFull.GaussFacts_inst)). Qed.
+Print Assumptions C05_rate_last_alone_keys_inst.
+
+Theorem C05_rate_two_team_order_inst : forall (k : kind) (P : params R) (tau : R) (limit : bool)
+    (ta tb : list (rating R)) (kw kw' kd kd' kl kl' : key) (aw bl ad bd al bw : list (rating R)),
+  0 < p_beta P -> 0 < p_kappa P ->
+  Forall (fun t => t <> [] /\ Forall (fun p => 0 < r_sigma p * r_sigma p + tau * tau) t) [ta; tb] ->
+  key_ltb kw kw' = true -> key_leb kd kd' = true -> key_leb kd' kd = true -> key_ltb kl' kl = true ->
+  rate_core (H := RNum GaussInst.PhiK GaussInst.PhiinvK) k P tau limit [ta; tb] (Some [kw; kw']) = [aw; bl] ->
+  rate_core (H := RNum GaussInst.PhiK GaussInst.PhiinvK) k P tau limit [ta; tb] (Some [kd; kd']) = [ad; bd] ->
+  rate_core (H := RNum GaussInst.PhiK GaussInst.PhiinvK) k P tau limit [ta; tb] (Some [kl; kl']) = [al; bw] ->
+  (Forall2 (fun x y => r_mu x <= r_mu y) al ad /\ Forall2 (fun x y => r_mu x <= r_mu y) ad aw
+   /\ Forall2 (fun p0 x => r_mu x <= r_mu p0) ta al /\ Forall2 (fun p0 x => r_mu p0 <= r_mu x) ta aw)
+  /\ (Forall2 (fun x y => r_mu x <= r_mu y) bl bd /\ Forall2 (fun x y => r_mu x <= r_mu y) bd bw
+   /\ Forall2 (fun p0 x => r_mu x <= r_mu p0) tb bl /\ Forall2 (fun p0 x => r_mu p0 <= r_mu x) tb bw).
+Proof. intros k P tau limit ta tb kw kw' kd kd' kl kl' aw bl ad bd al bw; exact (C05_rate_two_team_order GaussInst.PhiK GaussInst.PhiinvK k P tau limit ta tb kw kw' kd kd' kl kl' aw bl ad bd al bw (fun _ => GaussFull.GaussFacts_inst)). Qed.
+Print Assumptions C05_rate_two_team_order_inst.
+
+Theorem C05_rate_identical_ordered_none_inst : forall (k : kind) (P : params R) (tau : R) (limit : bool)
+    (teams : list (list (rating R))) (i j : nat) (t resi resj : list (rating R)),
+  (k = PL \/ k = BTF \/ k = TMF) ->
+  (2 <= length teams)%nat -> 0 < p_beta P -> 0 < p_kappa P ->
+  Forall (fun t => t <> [] /\ Forall (fun p => 0 < r_sigma p * r_sigma p + tau * tau) t) teams ->
+  (i < j)%nat -> nth_error teams i = Some t -> nth_error teams j = Some t ->
+  nth_error (rate_core (H := RNum GaussInst.PhiK GaussInst.PhiinvK) k P tau limit teams None) i = Some resi ->
+  nth_error (rate_core (H := RNum GaussInst.PhiK GaussInst.PhiinvK) k P tau limit teams None) j = Some resj ->
+  Forall2 (fun pj pi => r_mu pj <= r_mu pi) resj resi.
+Proof. intros k P tau limit teams i j t resi resj; exact (C05_rate_identical_ordered_none GaussInst.PhiK GaussInst.PhiinvK k P tau limit teams i j t resi resj (fun _ => GaussFull.GaussFacts_inst)). Qed.
+Print Assumptions C05_rate_identical_ordered_none_inst.
+
+Theorem C05_rate_draw_direction_TMF_inst : forall (P : params R) (tau : R) (limit : bool)
+    (ta tb : list (rating R)) (kd kd' : key) (ad bd : list (rating R)),
+  0 < p_beta P -> 0 < p_kappa P ->
+  Forall (fun t => t <> [] /\ Forall (fun p => 0 < r_sigma p * r_sigma p + tau * tau) t) [ta; tb] ->
+  key_leb kd kd' = true -> key_leb kd' kd = true ->
+  Rsum (map r_mu tb) <= Rsum (map r_mu ta) ->
+  rate_core (H := RNum GaussInst.PhiK GaussInst.PhiinvK) TMF P tau limit [ta; tb] (Some [kd; kd']) = [ad; bd] ->
+  let sa := t_ss (team_rating (H := RNum GaussInst.PhiK GaussInst.PhiinvK) (map (inflate (H := RNum GaussInst.PhiK GaussInst.PhiinvK) tau) ta) 0) in
+  let sb := t_ss (team_rating (H := RNum GaussInst.PhiK GaussInst.PhiinvK) (map (inflate (H := RNum GaussInst.PhiK GaussInst.PhiinvK) tau) tb) 0) in
+  let c := sqrt (sa + sb + 2 * (p_beta P * p_beta P)) in
+  Forall2 (fun p0 x => r_mu x <= r_mu p0 + r_sigma (inflate (H := RNum GaussInst.PhiK GaussInst.PhiinvK) tau p0) * r_sigma (inflate (H := RNum GaussInst.PhiK GaussInst.PhiinvK) tau p0) / sa * (sa / c * (p_kappa P / c))) ta ad
+  /\ Forall2 (fun p0 x => r_mu p0 + r_sigma (inflate (H := RNum GaussInst.PhiK GaussInst.PhiinvK) tau p0) * r_sigma (inflate (H := RNum GaussInst.PhiK GaussInst.PhiinvK) tau p0) / sb * - (sb / c * (p_kappa P / c)) <= r_mu x) tb bd.
+Proof. intros P tau limit ta tb kd kd' ad bd; exact (C05_rate_draw_direction_TMF GaussInst.PhiK GaussInst.PhiinvK P tau limit ta tb kd kd' ad bd GaussFull.GaussFacts_inst). Qed.
+Print Assumptions C05_rate_draw_direction_TMF_inst.
+
+Theorem C05_rate_draw_direction_TMP_inst : forall (P : params R) (tau : R) (limit : bool)
+    (ta tb : list (rating R)) (kd kd' : key) (ad bd : list (rating R)),
+  0 < p_beta P -> 0 < p_kappa P ->
+  Forall (fun t => t <> [] /\ Forall (fun p => 0 < r_sigma p * r_sigma p + tau * tau) t) [ta; tb] ->
+  key_leb kd kd' = true -> key_leb kd' kd = true ->
+  Rsum (map r_mu tb) <= Rsum (map r_mu ta) ->
+  rate_core (H := RNum GaussInst.PhiK GaussInst.PhiinvK) TMP P tau limit [ta; tb] (Some [kd; kd']) = [ad; bd] ->
+  let sa := t_ss (team_rating (H := RNum GaussInst.PhiK GaussInst.PhiinvK) (map (inflate (H := RNum GaussInst.PhiK GaussInst.PhiinvK) tau) ta) 0) in
+  let sb := t_ss (team_rating (H := RNum GaussInst.PhiK GaussInst.PhiinvK) (map (inflate (H := RNum GaussInst.PhiK GaussInst.PhiinvK) tau) tb) 0) in
+  let c := 2 * sqrt (sa + sb + 2 * (p_beta P * p_beta P)) in
+  Forall2 (fun p0 x => r_mu x <= r_mu p0 + r_sigma (inflate (H := RNum GaussInst.PhiK GaussInst.PhiinvK) tau p0) * r_sigma (inflate (H := RNum GaussInst.PhiK GaussInst.PhiinvK) tau p0) / sa * (sa / c * (p_kappa P / c))) ta ad
+  /\ Forall2 (fun p0 x => r_mu p0 + r_sigma (inflate (H := RNum GaussInst.PhiK GaussInst.PhiinvK) tau p0) * r_sigma (inflate (H := RNum GaussInst.PhiK GaussInst.PhiinvK) tau p0) / sb * - (sb / c * (p_kappa P / c)) <= r_mu x) tb bd.
+Proof. intros P tau limit ta tb kd kd' ad bd; exact (C05_rate_draw_direction_TMP GaussInst.PhiK GaussInst.PhiinvK P tau limit ta tb kd kd' ad bd GaussFull.GaussFacts_inst). Qed.
+Print Assumptions C05_rate_draw_direction_TMP_inst.
